@@ -376,7 +376,7 @@ pub fn edges_for(prop: Prop, tier: Tier, r: &dyn Runner, st: &St) -> Vec<Edge> {
         Prop::C13 => { handles(r, tier, st, &mut v); movers(&mut v); }
         Prop::C18 => { capacity(r, tier, st, bounds(prop, tier).lmax, &mut v); elementwise(r, tier, st, &mut v); ranges(r, tier, st, true, &mut v); clones(r, tier, st, &mut v); }
         Prop::C06 => {
-            elementwise(r, tier, st, &mut v); ranges(r, tier, st, true, &mut v); clones(r, tier, st, &mut v);
+            elementwise(r, tier, st, &mut v); ranges(r, tier, st, true, &mut v); clones(r, tier, st, &mut v); lazies(r, tier, st, &mut v);
             // a splice that exceeds a fixed capacity panics by contract; a second (injected) panic while it unwinds would abort the
             // process by Rust's own rules, which says nothing about the vector: such edges get no fault enumeration
             if let Some(cap) = r.fixed_cap() {
